@@ -11,6 +11,7 @@ import (
 	"verif/internal/cat"
 	"verif/internal/gen"
 	"verif/internal/harness"
+	"verif/internal/hostile"
 	"verif/internal/spec"
 )
 
@@ -193,8 +194,22 @@ func genEnc(t *rapid.T) encCase {
 		if rapid.Bool().Draw(t, "on") {
 			r.Value = 0xFF00
 		}
+		if rapid.IntRange(0, 7).Draw(t, "self_crc") == 0 {
+			// the address is chosen so that the value bytes equal the CRC (low byte first) of unit, function and address: the 6-byte
+			// unit+PDU then "already ends with its own CRC"
+			want := uint16(0x0000)
+			if r.Value == 0xFF00 {
+				want = 0x00FF
+			}
+			if a, ok := hostile.AddrForCRC(r.Unit, 5, want); ok {
+				r.Addr = a
+			}
+		}
 	case 6:
 		r.Value = rapid.Uint16().Draw(t, "value")
+		if rapid.IntRange(0, 7).Draw(t, "self_crc") == 0 {
+			r.Value = hostile.SelfCRCValue(r.Unit, 6, r.Addr)
+		}
 	case 15:
 		n := int(gen.U16(t, "ncoils", gen.HotQty))
 		if n > 2100 {
